@@ -2558,3 +2558,86 @@ func rulePublishAtomic(c *Ctx) {
 		c.OK("publish-atomic.PersistPrivate", c.P.Pos(loop.Pos()), "all layers of one call are merged inside one critical section")
 	}
 }
+
+// ---------------------------------------------------------------------------
+// oracle-requests-reconciled (C04): Oracle.newRequests is the one piece of execution state kept outside every DAO
+// layer (tabled by exec-confinement): PutRequestInternal records a request there whether or not the transaction that
+// made it survives. The table entry is sound only because the map is reconciled against contract storage before it
+// is handed to the oracle service: every path of Oracle.updateCache to AddRequests passes the storage lookup of the
+// request keys (requests of faulted or rolled-back executions are not in storage and are dropped).
+func ruleOracleRequestsReconciled(c *Ctx) {
+	fd := c.P.Func("pkg/core/native", "Oracle", "updateCache")
+	if fd == nil {
+		c.Lost("oracle-requests-reconciled.anchor", "Oracle.updateCache not found")
+		return
+	}
+	f := c.P.NewFuncCFG(fd)
+	var adds []site
+	for _, b := range f.G.Blocks {
+		if !b.Live {
+			continue
+		}
+		for i, nd := range b.Nodes {
+			inspectNoLit(nd, func(x ast.Node) bool {
+				if call, ok := x.(*ast.CallExpr); ok {
+					if se, ok := ast.Unparen(call.Fun).(*ast.SelectorExpr); ok && se.Sel.Name == "AddRequests" {
+						adds = append(adds, site{blk: b, idx: i, node: nd, call: call})
+					}
+				}
+				return true
+			})
+		}
+	}
+	if len(adds) == 0 {
+		c.Lost("oracle-requests-reconciled.sink", "Oracle.updateCache no longer hands requests to the service (AddRequests)")
+		return
+	}
+	lookups := f.CallSites("pkg/core/dao.(*Simple).GetStorageItem")
+	hasDelete := false
+	ast.Inspect(fd.Decl.Body, func(x ast.Node) bool {
+		if call, ok := x.(*ast.CallExpr); ok {
+			if id, ok := ast.Unparen(call.Fun).(*ast.Ident); ok {
+				if b, ok := f.Info.ObjectOf(id).(*types.Builtin); ok && b.Name() == "delete" {
+					hasDelete = true
+				}
+			}
+		}
+		return true
+	})
+	if len(lookups) == 0 || !hasDelete {
+		c.Fail("oracle-requests-reconciled.updateCache", c.P.Pos(adds[0].call.Pos()), "Oracle.updateCache hands the collected requests to the oracle service without checking them against contract storage: a request made by a transaction that FAULTed, or by a callee whose exception was caught, was never stored and still reaches the service - with the id the next real request will get")
+		return
+	}
+	// the lookup and the delete sit in a loop over the very map that is handed over, in front of the hand-over
+	good := false
+	for _, ad := range adds {
+		if len(ad.call.Args) != 1 {
+			continue
+		}
+		aid, ok := ast.Unparen(ad.call.Args[0]).(*ast.Ident)
+		if !ok {
+			continue
+		}
+		ast.Inspect(fd.Decl.Body, func(x ast.Node) bool {
+			rs, ok := x.(*ast.RangeStmt)
+			if !ok || rs.Pos() > ad.call.Pos() {
+				return true
+			}
+			rid, ok := ast.Unparen(rs.X).(*ast.Ident)
+			if !ok || f.Info.ObjectOf(rid) != f.Info.ObjectOf(aid) {
+				return true
+			}
+			for _, lk := range lookups {
+				if containsNode(rs, lk.call) {
+					good = true
+				}
+			}
+			return true
+		})
+	}
+	if good {
+		c.OK("oracle-requests-reconciled.updateCache", c.P.Pos(adds[0].call.Pos()), "requests are checked against contract storage, in a loop over the map that is handed over, before they reach the service")
+	} else {
+		c.Fail("oracle-requests-reconciled.updateCache", c.P.Pos(adds[0].call.Pos()), "Oracle.updateCache does not check the map it hands to the oracle service against contract storage (no loop over that map with the storage lookup in front of AddRequests)")
+	}
+}
